@@ -21,7 +21,7 @@ def run(ctx):
                     expect_violation="C21")
     gens = []
     h, r = ctx.gen("one_sub", "GenSubs", dict(one, MaxDepth=2 + (7 if q else 9)))
-    gens.append(("one_sub", to_cases(take(h, 2500 if q else 40000, ctx.seed))))
+    gens.append(("one_sub", to_cases(take(h, 2500 if q else 15000, ctx.seed))))
     h, r = ctx.gen("two_subs", "GenSubs", dict(two, MaxDepth=5 + (4 if q else 5)))
     gens.append(("two_subs", to_cases(take(h, 1500 if q else 15000, ctx.seed))))
     n = 300 if q else 4000
